@@ -382,6 +382,9 @@ def cast_cell(c, fm, to):
         raise ModelGap(f"astype string -> {to}")
     if to.kind in "TU":
         raise ModelGap(f"astype {fm} -> string")
+    if fm.kind in "Mm" and to.kind == "f":
+        # array-level cast only (measured on NumPy 2.0.2): the ticks as a number, NaT included (-9.223372036854776e18)
+        return z3.fpSignedToFP(symx.RNE, c, F64)
     return unbox(box(c, fm), to)
 
 class Buffer:
